@@ -366,7 +366,7 @@ Definition wf_pdata (d : pdata) : Prop :=
   id_ok d /\
   ((str_is a_IP (plook k_conn d) = true /\ plook k_ip d <> None /\ plook k_port d <> None) \/
    (str_is a_CoAP (plook k_conn d) = true /\ plook k_ip d <> None /\ plook k_port d <> None) \/
-   (str_is a_BLE (plook k_conn d) = true)).
+   (str_is a_BLE (plook k_conn d) = true /\ plook k_addr d <> None)).
 
 Lemma str_is_excl a b v : str_is a v = true -> bytes_eqb a b = false -> str_is b v = false.
 Proof.
@@ -377,16 +377,17 @@ Theorem pairing_record_roundtrip d : wf_pdata d -> load_pairing d = LpLoaded d.
 Proof.
   intros [(s & Hid & Hs) Hc]. unfold load_pairing.
   assert (Hconn : exists v, plook k_conn d = Some v).
-  { destruct (plook k_conn d) eqn:E; [eauto|]. destruct Hc as [[H _]|[[H _]|H]]; discriminate. }
+  { destruct (plook k_conn d) eqn:E; [eauto|]. destruct Hc as [[H _]|[[H _]|[H _]]]; discriminate. }
   destruct Hconn as [cv Hcv]. rewrite Hcv. cbv beta iota zeta. rewrite Hcv. rewrite Hcv in Hc. rewrite Hid.
   assert (Ht : otruthy (Some (JStr s)) = true) by (destruct s; [congruence|reflexivity]).
   assert (Hn : negb (nil_b s) = true) by (destruct s; [congruence|reflexivity]).
   rewrite Ht, Hn.
-  destruct Hc as [(H & Hi & Hp)|[(H & Hi & Hp)|H]].
+  destruct Hc as [(H & Hi & Hp)|[(H & Hi & Hp)|(H & Ha)]].
   - rewrite H. destruct (plook k_ip d); [|congruence]. destruct (plook k_port d); [|congruence]. reflexivity.
   - rewrite (str_is_excl _ a_IP _ H eq_refl), H.
     destruct (plook k_ip d); [|congruence]. destruct (plook k_port d); [|congruence]. reflexivity.
-  - rewrite (str_is_excl _ a_IP _ H eq_refl), (str_is_excl _ a_CoAP _ H eq_refl), H. reflexivity.
+  - rewrite (str_is_excl _ a_IP _ H eq_refl), (str_is_excl _ a_CoAP _ H eq_refl), H.
+    destruct (plook k_addr d); [|congruence]. reflexivity.
 Qed.
 
 Theorem pairings_roundtrip l :
@@ -507,14 +508,14 @@ Proof.
 Qed.
 
 Definition ex_pairings : list (bytes * pdata) :=
-  [([195; 164]%N, [(k_id, JStr [65; 65]%N); (k_conn, JStr a_BLE); ([120]%N, JInt 7)]);
+  [([195; 164]%N, [(k_id, JStr [65; 65]%N); (k_conn, JStr a_BLE); ([120]%N, JInt 7); (k_addr, JStr [48]%N)]);
    ([105]%N, [(k_ip, JStr [49]%N); (k_port, JInt 51826); (k_id, JStr [66]%N); (k_conn, JStr a_IP)]);
    ([99]%N, [(k_conn, JStr a_CoAP); (k_ip, JStr [49]%N); (k_port, JInt 5683); (k_id, JStr [67]%N)])].
 Lemma ex_pairings_wf : Forall (fun ad => wf_pdata (snd ad)) ex_pairings.
 Proof.
   unfold ex_pairings. apply Forall_cons; [|apply Forall_cons; [|apply Forall_cons; [|apply Forall_nil]]]; cbn [snd]; split.
   - eexists. split; [vm_compute; reflexivity|discriminate].
-  - right. right. reflexivity.
+  - right. right. split; [reflexivity|discriminate].
   - eexists. split; [vm_compute; reflexivity|discriminate].
   - left. split; [reflexivity|split; discriminate].
   - eexists. split; [vm_compute; reflexivity|discriminate].
